@@ -30,6 +30,7 @@ type TempPool struct {
 	cleanRemovedBallotDeep            int
 	setproposallock                   sync.Mutex
 	setballotlock                     sync.Mutex
+	setoperationlock                  sync.Mutex
 }
 
 func NewTempPool(
@@ -424,6 +425,12 @@ func (db *TempPool) SetOperation(_ context.Context, op base.Operation) (bool, er
 	}
 
 	oph := op.Hash()
+
+	// NOTE the existence check and the write are one step; two calls with the
+	// same operation would otherwise both write an ordered record and the
+	// keys record would only know the last one.
+	db.setoperationlock.Lock()
+	defer db.setoperationlock.Unlock()
 
 	key, orderedkey := newNewOperationLeveldbKeys(op.Hash())
 
